@@ -56,8 +56,8 @@ def find_edge_list(fn):
                 src = ast.unparse(v.args[0])
                 if src in ('R', 'A'):
                     return 'ELall'
-                if src in ('np.tril(R)', 'np.tril(A)'):
-                    return 'ELtril'
+                if src in ('np.tril(R, -1)', 'np.tril(A, -1)'):
+                    return 'ELtril'      # strict lower triangle (np.tril(R), which lists self-connections, is NOT the model's)
                 if src in ('np.triu(A, 1)', 'np.triu(R, 1)'):
                     return 'ELtriu1'
                 raise Unknown('edge list source ' + src)
@@ -241,7 +241,7 @@ def extract(fn):
         else:
             raise Unknown('max_attempts: %r' % ma)
         fors = [ast.unparse(st.iter) for st in ast.walk(fn) if isinstance(st, ast.For) and name(st.target) == 'it']
-        spec['loops'] = ('itr *= %s' % kv) in src0 and fors in (['range(int(itr))'], ['range(itr)']) and 'att <= max_attempts' in tests \
+        spec['loops'] = (('itr = itr * %s' % kv) in src0 or ('itr *= %s' % kv) in src0) and fors in (['range(int(itr))'], ['range(itr)']) and 'att <= max_attempts' in tests \
             and 'att = 0' in src0 and 'att += 1' in src0 and 'n = len(R)' in src0
     # latticisers: permute before, inverse-permute after
     src = ast.unparse(fn)
